@@ -1074,3 +1074,102 @@ def r8(prog):
                                             % (f["q"], stvars[root], ".".join(chain), pt, (callee.get("f") or callee.get("c") or "?")[:60]), "detail": None})
     inst.append(("R8:functions-with-state-references", {"scanned": nscan}))
     return inst, findings
+
+
+# --------------------------------------------------------------------------
+# E3: `A || B || C` by evaluation
+
+def e3(prog):
+    """op_or::next interpreted from source with an abstract upstream and 1-3 abstract branches: for every input stack, in input order,
+    the results are ALL results of the first branch that yields anything for that stack, in the branch's order, and nothing else
+    (later branches are not consulted for it; a branch that yields nothing for one stack is asked again for the next; nothing is
+    carried over between stacks).  Branch behaviours range over yielding 0, 1 or 2 stacks per input."""
+    import itertools
+    from cxxobj import CxxEvaluator, Obj, Vec, OutOfBounds
+    from absint import Thrown
+    inst, findings = [], []
+    fs = [f for f in prog.funcs.values() if f["q"] == "op_or::next" and f.get("body") is not None]
+    if len(fs) != 1:
+        raise Broken("anchor op_or::next vanished")
+    nxt = fs[0]
+
+    class Src:
+        def __init__(self, name):
+            self.queue, self.name = [], name
+            self.addr = id(self)
+    asked = []
+
+    def op_next(ev, o, a):
+        if isinstance(o, Src):
+            if o.name != "up":
+                asked.append(o.name)
+            return o.queue.pop(0) if o.queue else None
+        raise Broken("op::next on an object the model does not know")
+    plan = {}
+
+    def set_next(ev, o, a):
+        stk = a[1]
+        # a new input discards whatever the branch had not yet produced for the previous one? No: the real chain keeps it.  The
+        # model keeps it too, so that results leaking into the next input are visible.
+        o.inner.queue.extend(plan[(o.inner.name, stk)])
+        return None
+    states = {}
+    hooks = {
+        "op::next": op_next,
+        "op_origin::set_next": set_next,
+        "scon::get<*": lambda ev, o, a: states["st"],
+        # reset destroys and reconstructs the state in place: references to it stay valid
+        "scon::reset<*": lambda ev, o, a: (states["st"].__dict__.clear(), states["st"].__dict__.update(ev.new_object("op_or::state", [a[1]]).__dict__)) and None,
+        "std::make_unique<stack*": lambda ev, o, a: a[0],
+        "ctor:stack": lambda ev, o, a: a[0],
+    }
+    ev = CxxEvaluator(hooks, {}, prog=prog)
+    key = "E3:op_or"
+    bad = None
+    n = 0
+    behaviours = [(), (1,), (1, 2)]            # how many results (tagged) a branch yields for an input
+    try:
+        for nb in (1, 2, 3):
+            for beh in itertools.product(itertools.product(behaviours, repeat=2), repeat=nb):
+                # beh[b][i]: results of branch b for input i (two inputs)
+                inputs = (10, 20)
+                up = Src("up")
+                up.queue = list(inputs)
+                branches = []
+                plan.clear()
+                for b in range(nb):
+                    origin, inner = Obj("op_origin"), Src("b%d" % b)
+                    origin.inner = inner
+                    branches.append((origin, inner))
+                    for i, x in enumerate(inputs):
+                        plan[(inner.name, x)] = [x * 100 + b * 10 + r for r in beh[b][i]]
+                this = Obj("op_or")
+                this.m_upstream, this.m_ll = up, 0
+                this.m_branches = Vec(branches, "branches")
+                states["st"] = ev.new_object("op_or::state", [this.m_branches])
+                ev.steps = 0
+                got = []
+                limit = 4 * nb + 4
+                for _ in range(limit):
+                    v = ev.call(nxt, this, [Obj("scon")])
+                    n += 1
+                    if v is None:
+                        break
+                    got.append(v)
+                want = []
+                for i, x in enumerate(inputs):
+                    for b in range(nb):
+                        if beh[b][i]:
+                            want += [x * 100 + b * 10 + r for r in beh[b][i]]
+                            break
+                if got != want and bad is None:
+                    bad = "`||` of %d branch(es) that yield per input %s for the inputs %s yields %s; expected %s (all results of the first branch that yields anything, per input)" % (
+                        nb, [[list(r) for r in bb] for bb in beh], list(inputs), got, want)
+    except OutOfBounds as x:
+        bad = bad or "op_or::next: %s" % x
+    except Thrown as x:
+        bad = bad or "op_or::next raises an error (%s)" % x
+    inst.append((key, {"next_calls": n}))
+    if bad:
+        findings.append({"key": key, "where": "libzwerg/" + nxt["l"], "msg": bad, "detail": None})
+    return inst, findings
